@@ -114,7 +114,7 @@ def liveOf : List Int → Nat → List Nat
   | x :: xs, k => if 0 ≤ x then k :: liveOf xs (k + 1) else liveOf xs (k + 1)
 
 theorem mapM'_ge_zero (xs : List Int) :
-    mapM' (fun x => liftCmp pyGe x (.int 0)) (xs.map PV.int) = .ok (xs.map fun x => PV.bool (decide (0 ≤ x))) :=
+    mapM' (fun x => cmpItem pyGe x (.int 0)) (xs.map PV.int) = .ok (xs.map fun x => PV.bool (decide (0 ≤ x))) :=
   mapM'_map (fun _ _ => rfl)
 
 theorem npCmp_ge_zero (r : Array Int) :
@@ -255,7 +255,7 @@ theorem npCmp_eq_idx (l : List Nat) (p : Nat) :
       · simp [h]
       · have : ¬ (i : Int) = p := by omega
         simp [h, this]
-    simp only [liftCmp, pyEq_def, eqb_int, this, R_map_ok]
+    simp only [cmpItem, liftCmp, pyEq_def, eqb_int, this, R_map_ok]
 
 theorem trueIdx_eq_head (l : List Nat) (p k : Nat) (hp : p ∈ l) :
     ∃ rest, trueIdx (l.map fun i => PV.bool (decide (i = p))) k = PV.int ((k + l.idxOf p : Nat) : Int) :: rest := by
@@ -305,11 +305,12 @@ theorem npArray_natsPV (l : List Nat) : npArray (natsPV l) = .ok (bitsPV l) := b
 
 theorem pySetItem_bits {bm : List Nat} {i : Nat} (h : i < bm.length) (x : Nat) :
     pySetItem (bitsPV bm) (.int (i : Int)) (.int (x : Int)) = .ok (bitsPV (bm.set i x)) := by
-  simp [bitsPV, pySetItem, pySetItemSeq, normIndex_natCast h]
+  simp [bitsPV, pySetItem, pySetItemSeq, normIndex_natCast h, List.getD_eq_getElem?_getD,
+    List.getElem?_eq_getElem h]
 
 theorem pySetItem_bits_of_ge {bm : List Nat} {i : Nat} (h : bm.length ≤ i) (x : Nat) :
     pySetItem (bitsPV bm) (.int (i : Int)) (.int (x : Int)) = .error .indexError := by
   have : normIndex bm.length (i : Int) = Option.none := normIndex_of_ge (by omega)
-  simp [bitsPV, pySetItem, pySetItemSeq, this]
+  simp [bitsPV, pySetItem, this]
 
 end Dsw.Tie.DecodeTie
